@@ -48,6 +48,7 @@ type Step struct {
 	MapSeed uint64   `json:"map_seed,omitempty"`
 	Events  []*Event `json:"events,omitempty"` // AtSeq relative to the start of the call
 	Tag     string   `json:"tag,omitempty"`    // opaque to the worker (oracle key of the orchestrator)
+	ExtraConv string `json:"extra_conv,omitempty"` // a converter of this target is constructed (and never used) after the call's own converter
 
 	// write / remove
 	File      string `json:"file,omitempty"`
